@@ -22,9 +22,9 @@ POOLS = {
 POOL_NAMES = ["dyadic", "decimal", "tie", "normalised", "mixed", "tiny", "ratio", "longtail", "ulp"]
 
 ALPHA_CHARS = "abcxyz"
-SPECIAL_ALPHA = ["é", "ф", "α", "ñ", "ß", "ŉ", "ﬁ", "ǆ", "\u7801", "\u05d0", "\u0645"]   # 1:1 case maps, plus letters whose upper() is 2 characters
+SPECIAL_ALPHA = ["é", "ф", "α", "ñ", "ß", "ŉ", "ﬁ", "ǆ", "\u7801", "\u05d0", "\u0645", "\u0958", "\u1100", "\u1161", "\u212b"]   # 1:1 case maps, plus letters whose upper() is 2 characters
 DIGITS = "0123456789"
-ODD_CHARS = ["\u00a0", "\u3000", "\u2003", "\u200f", "\u00ad", "\u200d", "\ue000"]
+ODD_CHARS = ["\u00a0", "\u3000", "\u2003", "\u200f", "\u00ad", "\u200d", "\ue000", "\u037e", "\u2126", "\u0301", "\u0344"]
 OTHERS = "!@#$ .-_"
 KEYB = ["1qaz", "qwer", "asdf", "1q2w", "zaq1", "2wsx"]
 KEYB_BY_LEN = {4: KEYB + ["!QAZ", "1QAZ", "ZAQ!"], 5: ["1qaz2", "qwer4", "asdf5", "zaq12", "1q2w3"], 6: ["1qaz2w", "1q2w3e", "zaq12w"]}
@@ -201,7 +201,7 @@ def gen_omen(t, small=True, safe=True):
         cp = t.shuffle(cp)
         ip = t.shuffle(ip)
     return {"ngram": ngram, "alphabet": alphabet, "ip": ip, "cp": cp, "ep": ep, "ln": ln,
-            "encoding": "utf-8", "line_order": order}
+            "encoding": "utf-8", "line_order": order, "eol": "\r\n" if t.chance(1, 6) else "\n"}
 
 
 TRIVIAL_OMEN = {"ngram": 2, "alphabet": ["a", "b"], "ip": [[0, "a"], [1, "b"]],
@@ -341,9 +341,10 @@ def write_omen(omen, odir, keyspace=None, prob=None, encoding=None):
     _write(os.path.join(odir, "config.txt"),
            "[training_settings]\nngram = %d\nencoding = %s\n\n" % (omen["ngram"], enc), "ascii")
     _write(os.path.join(odir, "alphabet.txt"), "".join(a + "\n" for a in omen["alphabet"]), enc)
-    _write(os.path.join(odir, "IP.level"), "".join("%d\t%s\n" % (l, g) for l, g in omen["ip"]), enc)
-    _write(os.path.join(odir, "EP.level"), "".join("%d\t%s\n" % (l, g) for l, g in omen["ep"]), enc)
-    _write(os.path.join(odir, "CP.level"), "".join("%d\t%s\n" % (l, g) for l, g in omen["cp"]), enc)
+    eol = omen.get("eol", "\n")          # (a Windows checkout or editor: CRLF line ends in the level files)
+    _write(os.path.join(odir, "IP.level"), "".join("%d\t%s%s" % (l, g, eol) for l, g in omen["ip"]), enc)
+    _write(os.path.join(odir, "EP.level"), "".join("%d\t%s%s" % (l, g, eol) for l, g in omen["ep"]), enc)
+    _write(os.path.join(odir, "CP.level"), "".join("%d\t%s%s" % (l, g, eol) for l, g in omen["cp"]), enc)
     _write(os.path.join(odir, "LN.level"), "".join("%d\n" % l for l in omen["ln"]), "ascii")
     ks = keyspace if keyspace is not None else [[str(l), "1"] for l in range(0, 19)]
     _write(os.path.join(odir, "omen_keyspace.txt"), "".join("%s\t%s\n" % (a, b) for a, b in ks), enc)
